@@ -34,10 +34,10 @@ def sparse_models(rnd, d):
     elif kind == "SparseLinearMI":
         m = SparseLinearMI(groups=g, **common)
     elif kind == "SparseMLPModel":
-        m = SparseMLPModel(gemini=rnd.choice(["mmd_ovo", "kl_ova", "chi2_ova"]), n_hidden_dim=3, M=rnd.choice([0.5, 2, 10]), groups=g,
+        m = SparseMLPModel(gemini=rnd.choice(["mmd_ovo", "kl_ova", "chi2_ova"]), n_hidden_dim=3, M=rnd.choice([0, 0.5, 2, 10]), groups=g,
                            dynamic=dyn, **common)
     else:
-        m = SparseMLPMMD(kernel="linear", n_hidden_dim=3, M=rnd.choice([0.5, 2, 10]), groups=g, dynamic=dyn, **common)
+        m = SparseMLPMMD(kernel="linear", n_hidden_dim=3, M=rnd.choice([0, 0.5, 2, 10]), groups=g, dynamic=dyn, **common)
     return kind, m, dict(kind=kind, groups=g, alpha=alpha, dynamic=bool(getattr(m, "dynamic", False)),
                          **{k: common[k] for k in ("max_iter", "learning_rate", "solver", "batch_size")})
 
